@@ -60,6 +60,12 @@ def build_pool(S, rng, n):
         if i % 2 == 0:
             b = rand_bic(rng)
             pool.append(("BIC", S.BIC(b)))
+            if i % 4 == 0:
+                # near-misses that a "smart" equality might identify: 8-character form vs the same with XXX
+                b8 = b[:8]
+                pool.append(("BIC", S.BIC(b8)))
+                pool.append(("BIC", S.BIC(b8 + "XXX")))
+                pool.append(("str", b8 + "XXX"))
             if i % 6 == 0:
                 pool.append(("str", b))
                 pool.append(("str", b.lower()))
